@@ -29,6 +29,8 @@ BV = [R(r'void (\w+)::bvisit\(const (\w+) &x\)', r'void \1::bvisit_\2(const Basi
       R(r'^(\s*)void bvisit\(const (\w+) &x\)', r'\1void bvisit_\2(const Basic &x)', n='*', regex=True),
       R(r'bool\(x\.(is_\w+)\(\)\)', r'x.\1()', n='*', regex=True, why="functional cast bool(bool) is the identity")]
 
+BV2 = [R(r'void (\w+)::bvisit\(const (\w+) &x\)', r'void \1::bvisit_\2(const \2 &x)', n=1, regex=True, why="overload on the static class -> distinct name")]
+
 def number_rule_pieces():
     ps = []
     for v in ('Zero', 'Positive', 'NonPositive', 'Negative', 'NonNegative'):
@@ -71,8 +73,24 @@ def units(tier):
                assumptions=["ComplexDouble operands have a non-zero imaginary part; RealDouble operands are finite",
                             "is_integer/is_rational on floating-point operands are not judged",
                             "Assumptions::is_* (Symbol rules), Pow and function-specific rules, algebraic/transcendental/polynomial visitors are not under contract"])
-    return [tri, num]
+    RF = [R('for (const auto &p : x.get_dict()) {', 'term_dict p__d = x.get_dict(); for (unsigned p__k = 0; p__k < p__d.size(); p__k++) { dict_entry p = p__d.at(p__k);', n='*',
+             why="range-for over the factor/term dictionary -> index loop over the stub (iteration order irrelevant to the postcondition), body verbatim"),
+          R('for (const auto &p : dict) {', 'for (unsigned p__k = 0; p__k < dict.size(); p__k++) { dict_entry p = dict.at(p__k);', n='*', why="range-for -> index loop"),
+          R('for (const auto &arg : x.get_args()) {', 'vec_basic a__v = x.get_args(); for (unsigned a__k = 0; a__k < a__v.size(); a__k++) { RCPBasic arg = a__v.at(a__k);', n='*', why="range-for -> index loop"),
+          R('auto coef = x.get_coef();', 'RCPBasic coef = x.get_coef();', n='*', why="auto -> explicit type"),
+          R('auto dict = x.get_dict();', 'term_dict dict = x.get_dict();', n='*', why="auto -> explicit type")]
+    comb_pieces = [Piece(TV, r'void RealVisitor::bvisit\(const Add &x\)', rules=RF + BV2), Piece(TV, r'void RealVisitor::bvisit\(const Mul &x\)', rules=RF + BV2),
+                   Piece(TV, r'void PositiveVisitor::bvisit\(const Add &x\)', rules=RF + BV2)]
+    comb = Unit('combination_rules', 'C34', 'contracts/C34/combination.cpp', {'tribool.inc': tribool_pieces(), 'rules.inc': comb_pieces},
+                [Entry(h, route='B', timeout=600, unwind=5, defines={'MAXT': 2}, bounds="at most 2 terms/factors (3 arguments for Add::get_args), ghost values re, im in [-2,2] ([-3,3] for the positivity rule)")
+                 for h in ('h_real_mul', 'h_real_add', 'h_positive_add')], route='B',
+                trusted=["the recursive calls accept()/check_power()/NegativeVisitor::apply() on a child are replaced by their CONTRACT: any sound answer about the child's ghost value (induction hypothesis)",
+                         "Add/Mul stubs: coefficient, term dictionary, get_args; Add/Mul type invariants (non-empty dictionary, non-zero Mul coefficient) assumed as preconditions"],
+                assumptions=["Integer/Rational/Complex/Algebraic/Polynomial visitors' Add/Mul/Pow rules, check_power bodies, Assumptions::is_* and function-specific rules are not under contract"])
+    return [tri, num, comb]
 
 def replay_args(obl, inputs, res):
+    if 'Visitor.Add' in obl or 'Visitor.Mul' in obl:
+        return [obl] + (["kf=1"] if res.get('_nokf') else [])
     keep = ('a_type', 'a_cls', 'a_v', 'which', 'ci')
     return [obl] + ["%s=%s" % (k, v.get("binary") or v.get("data")) for k, v in sorted(inputs.items()) if k in keep]
